@@ -353,6 +353,11 @@ func c11Check(c c11Case, x *vsched.Exec, initial bool, st *c11State, retd bool, 
 			}
 		}
 		_ = lastOK
+		// "permission-denied and vanished-interface errors on restore are tolerated":
+		// they must never surface as a cleanup failure.
+		if retErr != nil && strings.Contains(retErr.Error(), "failed to clean up connection") && !restoreFailedOther {
+			bad("C11:tolerated-restore-error-reported", "Dial returned %q although every failing restore was EPERM/ENOENT", retErr)
+		}
 		if restoreFailedOther && retErr == nil && !cancelled {
 			// "any other restore error is reported"
 			bad("C11:restore-error-swallowed", "a restore failed with a non-tolerated error but Dial returned nil")
